@@ -28,11 +28,9 @@ pub fn exec(op: &str, a: &[Vec<u8>]) -> Out {
         "mt.mul" => {
             let u = MontgomeryPoint(need!(b32(&a[0])));
             let s = need!(sc_any(&a[1]));
-            let mut t = u;
-            t *= &s;
             let mut o = vec![];
-            for r in [&u * &s, &s * &u, u * s, s * u, t] {
-                o.extend_from_slice(r.as_bytes());
+            for form in 0..10usize {
+                o.extend_from_slice(crate::mul_form!(u, s, form).as_bytes());
             }
             Out::Ok(o)
         }
